@@ -18,6 +18,7 @@ Examples: Typical Usage
 from __future__ import annotations
 
 import collections
+import contextlib
 import dataclasses
 import graphlib
 import inspect
@@ -125,6 +126,11 @@ def get_type_graph(t: type) -> graphlib.TopologicalSorter[TypeNode]:
             # If no type was provided, there's no reason to do further processing.
             if child in (constants.empty, typing.Any, Ellipsis):
                 continue
+            # Hints recovered from a signature under postponed evaluation (PEP 563) are
+            #   un-evaluated references: resolve them so their members are in the graph.
+            if inspection.isforwardref(child):
+                with contextlib.suppress(NameError, TypeError, AttributeError):
+                    child = refs.evaluate(child)
 
             unwrapped = inspection.unwrap(child)
             # Only subscripted generics or non-stdlib types can be cyclic.
